@@ -6,6 +6,6 @@ m = {"property": prop, "breaks": open('/verif/seeded/%s/agent_meta.txt' % d).rea
      "needs_to_manifest": needs,
      "confirmed_by_me": conf + ["root package suite with change: PASS (run by the authoring sub-agent; failures it met were the known flaky TestPersist_Basic/LoadingBasic, reproduced on the unchanged tree)"],
      "what_i_ran": ["git apply patch.diff in scratch worktree /tmp/seed_*", "go build ./...", "go test -count=1 -vet=off ./internal/...",
-                    "demo test with and without the change", "git -C /repo apply patch.diff && ./check %s && git -C /repo checkout -- ." % prop],
+                    "demo test with and without the change", "tools/try_seed.sh <scratch worktree with the patch applied> %s (scratch copy of /verif, VERIF_REPO = the worktree; /repo untouched) or: git -C /repo apply patch.diff && ./check %s && git -C /repo checkout -- ." % (prop, prop)],
      "check_result": detected}
 json.dump(m, open('/verif/seeded/%s/meta.json' % d, 'w'), indent=1)
